@@ -24,7 +24,7 @@ from .. import q
 from ..rules import call_sites
 from ..mutate import mutate, remove_stmts, replace_expr, replace_stmt, parse_stmt, parse_expr
 from ..model import AnalysisError
-from ..x_taint import flow_taint, expr_tainted
+from ..x_taint import flow_taint, expr_tainted, HelperSummaries
 
 TECHNIQUE = "flow-sensitive source-to-sink taint on the CFG (request path -> self.redirect) with startswith('//') guards and lstrip('/') sanitisation"
 EXPLANATION = (
@@ -76,7 +76,8 @@ def _redirect_sites(fi):
 
 def check_path_redirects(ck, fi):
     sites = _redirect_sites(fi)
-    states = flow_taint(fi, PATH_SOURCES, clean_on_edge=_guard_cleaner, expr_hook=_strips_slash)
+    hs = HelperSummaries(ck.repo, fi, lambda h: _guard_cleaner, (), _strips_slash, self_classes=("RequestHandler", "StaticFileHandler"))
+    states = flow_taint(fi, PATH_SOURCES, clean_on_edge=hs.cleaner(_guard_cleaner), expr_hook=hs.expr_hook, on_node=hs.on_node)
     n = 0
     for node, c in sites:
         target = q.arg(c, 0, "url")
@@ -85,7 +86,7 @@ def check_path_redirects(ck, fi):
         sts = states.get(node.id, [])
         if not sts:
             raise AnalysisError("%s: redirect call unreachable in the taint exploration" % fi.qualname)
-        bad = any(expr_tainted(target, t, expr_hook=_strips_slash) for t in sts)
+        bad = any(expr_tainted(target, t, expr_hook=hs.expr_hook) for t in sts)
         n += 1
         ck.ob("C28.same-site", fi, c, not bad, "a redirect target derived from the request path cannot start with '//' (rejected by a startswith('//') guard or stripped with lstrip('/')) on any path to the call")
     return n
